@@ -102,7 +102,34 @@ def rand_rules(rng, R, nN=3, V=("a", "b"), nrules=5, maxbody=3, shape="any", dup
     return rules
 
 
+def ring_rules(rng, R, V=("a", "b")):
+    """A left-corner cycle through 2-3 nonterminals that usually contains the start symbol, members that also occur in
+    non-first positions (X -> Y Y t: prediction re-enters the cycle at another member), a nullable member and
+    terminal exits."""
+    k = rng.choice([2, 3, 3])
+    Ns = NT_NAMES[: k + (1 if rng.random() < 0.3 else 0)]
+    ring = Ns[:k] if rng.random() < 0.7 else rng.sample(Ns, k)
+    ws = weights_for(R)
+    V = list(V)
+    rules = []
+    for x, y in zip(ring, ring[1:] + ring[:1]):
+        rules.append((rng.choice(ws), x, (y,) + tuple(rng.choice(V + ring) for _ in range(rng.choice([0, 1, 1])))))
+    for _ in range(rng.choice([1, 2])):
+        x, y = rng.choice(ring), rng.choice(ring)
+        rules.append((rng.choice(ws), x, (y, y, rng.choice(V))))
+    rules.append((rng.choice(ws), rng.choice(ring), ()))
+    for x in ring:
+        if rng.random() < 0.5:
+            rules.append((rng.choice(ws), x, (rng.choice(V),)))
+    rules.append((rng.choice(ws), ring[-1], (rng.choice(V),)))
+    rng.shuffle(rules)
+    return rules
+
+
 def rand_cfg(rng, R, **kw):
+    if kw.get("shape") == "ring":
+        V = kw.pop("V", ("a", "b"))
+        return build_cfg(R, ring_rules(rng, R, V=V), V=V)
     V = kw.pop("V", ("a", "b"))
     return build_cfg(R, rand_rules(rng, R, V=V, **kw), V=V)
 
